@@ -441,7 +441,7 @@ ORDER_GUARDED = ['__init__', '__add__', '__sub__', '__neg__', '__pos__', '__bool
                  '__floordiv__', 'mul', 'div', 'muldiv', '__cmp__', '__eq__', '__ne__', '__lt__', '__le__',
                  '__gt__', '__ge__', 'min', '__str__', '__hash__']
 
-HEADER = """(* GENERATED by harness/translate_values.py from %s -- do not edit.
+HEADER = """(* GENERATED by harness/translate_values.py from droop/values/%s -- do not edit.
    source sha256: %s *)
 From Coq Require Import ZArith List Bool.
 Import ListNotations.
@@ -479,7 +479,7 @@ def translate_class(path, clsname, fields, stype, order, stats):
     for need in ('__truediv__', '__div__'):
         if aliases.get(need) != '__floordiv__':
             raise Unsupported("%s.%s is not an alias of __floordiv__" % (clsname, need))
-    text = HEADER % (path, hashlib.sha256(src.encode()).hexdigest()) + "\n".join(tr.out)
+    text = HEADER % (os.path.basename(path), hashlib.sha256(src.encode()).hexdigest()) + "\n".join(tr.out)
     text += "\n(* statistics updates skipped: %d *)\n" % tr.skipped_stats
     return text, tr.skipped_stats
 
@@ -528,7 +528,7 @@ def rational_wrapped(path):
             raise Unsupported("rational.%s is %r, expected %r" % (k, shapes[k], expect[k]))
     bases = [ast.unparse(b) for b in cdef.bases]
     if bases != ['Fraction']: raise Unsupported("Rational bases %r" % bases)
-    out = "(* GENERATED by harness/translate_values.py from %s -- do not edit. *)\n" % path
+    out = "(* GENERATED by harness/translate_values.py from droop/values/%s -- do not edit. *)\n" % os.path.basename(path)
     out += "From Coq Require Import List String.\nImport ListNotations.\nOpen Scope string_scope.\n\n"
     out += "Definition rational_wrapped : list string :=\n  [%s].\n" % "; ".join('"%s"' % n for n in names)
     out += "\n(* Rational.mul/div/muldiv/min were checked to be exactly:\n"
